@@ -298,6 +298,129 @@ Proof.
   unfold store_of in X. rewrite M in X. exact X.
 Qed.
 
+(* ---- the launch machine -------------------------------------------------------- *)
+
+Definition abs_state (st : lstate) : astate :=
+  match st with
+  | LQueued => AQueued
+  | LFailedLaunch => ADone 1
+  | LRunning _ => ARunning
+  | LDone None _ => ADone 0
+  | LDone (Some LCancelFetch) _ => ADone 1
+  | LDone (Some LCanceled) _ => ADone 2
+  | LDone (Some (LFailed _)) _ => ADone 3
+  end.
+
+(* the abstract event a concrete step amounts to (None = no visible change) *)
+Definition abs_event (st : lstate) (e : levent) : option aev :=
+  match st, e with
+  | LQueued, LHandover => Some AHandover
+  | LQueued, LQuit => Some AQuit
+  | LRunning m, LCancelSeen => if running m then Some ACancelSeen else None
+  | LRunning m, LStopSeen => if running m then Some AStopSeen else None
+  | LRunning m, LGuard =>
+    if running m then None
+    else Some (AGuardFalse (match m_err m with CNone => false | _ => true end))
+  | _, _ => None
+  end.
+
+Lemma launch_refines : forall db st e,
+  abs_state (lstep H dec blen ideal root cb0 db st e) =
+  match abs_event st e with Some a => astep (abs_state st) a | None => abs_state st end.
+Proof.
+  intros db st e. destruct st as [| |m|[[| |x]|] m]; destruct e as [| |ev| | |]; cbn [lstep abs_event abs_state astep]; try reflexivity.
+  - destruct ev; reflexivity.
+  - destruct (running m); reflexivity.
+  - destruct (running m); reflexivity.
+  - destruct (running m); [reflexivity|]. destruct (m_err m); reflexivity.
+Qed.
+
+(* done states are final; a task that was never handed over is never done without error *)
+Lemma launch_done_final : forall db e m ev, lstep H dec blen ideal root cb0 db (LDone e m) ev = LDone e m.
+Proof. intros. destruct ev; reflexivity. Qed.
+Lemma launch_failed_final : forall db ev, lstep H dec blen ideal root cb0 db LFailedLaunch ev = LFailedLaunch.
+Proof. intros. destruct ev; reflexivity. Qed.
+
+Lemma launch_needs_handover : forall db evs, ~ In LHandover evs ->
+  lrun H dec blen ideal root cb0 db evs = LQueued \/ lrun H dec blen ideal root cb0 db evs = LFailedLaunch.
+Proof.
+  intros db evs. unfold lrun.
+  assert (G : forall evs st, (st = LQueued \/ st = LFailedLaunch) -> ~ In LHandover evs ->
+            fold_left (lstep H dec blen ideal root cb0 db) evs st = LQueued \/
+            fold_left (lstep H dec blen ideal root cb0 db) evs st = LFailedLaunch).
+  { induction evs0 as [|e evs0 IH]; intros st S N; cbn [fold_left]; [assumption|].
+    apply IH; [|intro X; apply N; now right].
+    destruct S as [-> | ->]; destruct e; cbn [lstep]; auto. exfalso. apply N. now left. }
+  intro N. apply G; auto.
+Qed.
+
+(* an interruption seen by the running loop ends the task with an error *)
+Lemma launch_interrupted : forall db m, running m = true ->
+  lstep H dec blen ideal root cb0 db (LRunning m) LCancelSeen = LDone (Some LCanceled) (mstep H dec blen ideal m ECancel) /\
+  lstep H dec blen ideal root cb0 db (LRunning m) LStopSeen = LDone (Some LCancelFetch) (mstep H dec blen ideal m ECancel) /\
+  lstep H dec blen ideal root cb0 db LQueued LQuit = LFailedLaunch.
+Proof. intros db m R. cbn [lstep]. rewrite R. auto. Qed.
+
+Definition launch_ok (st : lstate) : Prop :=
+  match st with
+  | LQueued | LFailedLaunch => True
+  | LRunning m => INV (c_sched (m_c m))
+  | LDone e m => INV (c_sched (m_c m)) /\ s_mem (c_sched (m_c m)) = [] /\
+                 (e = None -> pending (c_sched (m_c m)) = 0)
+  end.
+
+Lemma pending_after_cancel : forall m,
+  pending (c_sched (m_c (mstep H dec blen ideal m ECancel))) = pending (c_sched (m_c m)).
+Proof.
+  intro m. cbn [mstep m_c]. unfold ccommit. cbn [negb andb]. unfold pending.
+  destruct (commit_db (c_sched (m_c m)) None) as [s2 [w f]] eqn:CD.
+  assert (s_reqs s2 = s_reqs (c_sched (m_c m))) by (unfold commit_db in CD; injection CD as <- _ _; reflexivity).
+  destruct (N.eqb w 0); cbn [c_sched]; congruence.
+Qed.
+
+Lemma lstep_ok : forall db st e, OC H dec cb0 db -> launch_ok st ->
+  launch_ok (lstep H dec blen ideal root cb0 db st e).
+Proof.
+  intros db st e O L. destruct st as [| |m|x m]; destruct e as [| |ev| | |]; cbn [lstep launch_ok] in *; auto.
+  - unfold new_mach. cbn [m_c c_sched]. now apply new_sync_inv.
+  - destruct ev; cbn [launch_ok]; try exact L; now apply mstep_inv.
+  - destruct (running m); cbn [launch_ok]; [|exact L].
+    split; [now apply mstep_inv|]. split; [apply cancel_flushes | discriminate].
+  - destruct (running m); cbn [launch_ok]; [|exact L].
+    split; [now apply mstep_inv|]. split; [apply cancel_flushes | discriminate].
+  - destruct (running m) eqn:R; cbn [launch_ok]; [exact L|].
+    split; [now apply mstep_inv|]. split; [apply cancel_flushes|].
+    intro E. rewrite pending_after_cancel. apply loop_exit; [assumption|].
+    destruct (m_err m); [reflexivity | discriminate E | discriminate E].
+Qed.
+
+(* done with err == nil: the task was handed to the fetcher, the loop's guard found
+   nothing pending, everything is flushed, and the database holds the closure of
+   the root (or a collision is exhibited) *)
+Lemma launch_done_nil : forall db evs m, OC H dec cb0 db ->
+  lrun H dec blen ideal root cb0 db evs = LDone None m ->
+  In LHandover evs /\
+  pending (c_sched (m_c m)) = 0 /\ s_mem (c_sched (m_c m)) = [] /\
+  (root = empty_root \/ Complete dec cb0 (s_db (c_sched (m_c m))) root \/ collision_in H (s_db (c_sched (m_c m)))).
+Proof.
+  intros db evs m O E. split.
+  - set (ish := fun e : levent => match e with LHandover => true | _ => false end).
+    destruct (existsb ish evs) eqn:EX.
+    + apply existsb_exists in EX. destruct EX as (x & I & X). destruct x; try discriminate X. exact I.
+    + assert (N : ~ In LHandover evs).
+      { intro I. assert (Y : existsb ish evs = true) by (apply existsb_exists; exists LHandover; auto). congruence. }
+      destruct (launch_needs_handover db evs N) as [X|X]; rewrite X in E; discriminate E.
+  - assert (L : launch_ok (lrun H dec blen ideal root cb0 db evs)).
+    { unfold lrun.
+      assert (G : forall evs st, launch_ok st -> launch_ok (fold_left (lstep H dec blen ideal root cb0 db) evs st)).
+      { induction evs0 as [|e evs0 IH]; intros st S; cbn [fold_left]; [assumption|]. apply IH. now apply lstep_ok. }
+      apply G. exact I. }
+    rewrite E in L. cbn [launch_ok] in L. destruct L as (W & M & P). specialize (P eq_refl).
+    split; [assumption|]. split; [assumption|].
+    pose proof (inv_complete_or_collision H dec cb0 root _ W P) as X.
+    unfold store_of in X. rewrite M in X. exact X.
+Qed.
+
 End Caller.
 
 (* ---- a concrete downloader run in the world of ProofsMain.v (non-vacuity) ------- *)
@@ -322,3 +445,20 @@ Lemma g_caller_run :
   (* after the timeout of peer 0 both tasks are queued again with no peer marked *)
   running m7 = true /\ c_tasks (m_c m7) = [(13, []); (12, [])] /\ m_active m7 = [].
 Proof. vm_compute. repeat split; reflexivity. Qed.
+
+Lemma g_launch_run :
+  let full := LHandover :: map LLoop gevs ++ [LGuard; LCancelSeen] in
+  let cut := LHandover :: map LLoop (firstn 7 gevs) ++ [LGuard; LCancelSeen; LGuard] in
+  (exists m, lrun wH gdec g_blen g_ideal 11 true [] full = LDone None m /\
+             s_db (c_sched (m_c m)) = [(11, 1); (13, 3); (14, 4); (15, 5); (12, 2); (16, 6)]) /\
+  (exists m, lrun wH gdec g_blen g_ideal 11 true [] cut = LDone (Some LCanceled) m /\
+             pending (c_sched (m_c m)) = 3 /\ s_db (c_sched (m_c m)) = []) /\
+  lrun wH gdec g_blen g_ideal 11 true [] [LQuit; LHandover; LGuard] = LFailedLaunch /\
+  lrun wH gdec g_blen g_ideal 11 true [] [LCancelSeen; LGuard] = LQueued.
+Proof.
+  cbv zeta. split; [|split; [|split]].
+  - eexists. split; [vm_compute; reflexivity | vm_compute; reflexivity].
+  - eexists. split; [vm_compute; reflexivity | split; vm_compute; reflexivity].
+  - vm_compute. reflexivity.
+  - vm_compute. reflexivity.
+Qed.
